@@ -545,8 +545,77 @@ def check_packer(ctx):
     return True
 
 
+def simulate_get_p_sys(ctx):
+    """get_p_sys(stage, k) of SamplingMethod run by the simulator (rkverif/sim.py) with every kind of parameter and variable present
+    (two global parameters, one per-interval, one per-interval-with-final-node, a B-spline parameter, the same for variables),
+    all lists holding row-labelled matrices.  The result must list, in the order of vertcat(stage.p, stage.v), the rows of the
+    global symbols and the rows of interval k (and of no other interval) of the per-interval ones.  Returns {k: (got, want)}."""
+    from ..sim import Sim, RowMat, h_vertcat, fresh_obj
+    from ..layout import Sym, Obj, LayoutUnknown
+    P = ctx.prog
+    cache = P.__dict__.setdefault("_get_p_sys_sim", {})
+    if "r" in cache:
+        return cache["r"]
+    f = P.own_method("SamplingMethod", "get_p_sys")
+    N = 3
+    def rows(tag, n):
+        return RowMat(["%s.%d" % (tag, i) for i in range(n)])
+    Pg = [rows("P0", 2), rows("P1", 1)]
+    Pc = [[rows("Pc0@%d" % k, 2) for k in range(N)]]
+    Pp = [[rows("Pp0@%d" % k, 1) for k in range(N + 1)]]
+    V = RowMat(list(rows("V0", 1)) + list(rows("V1", 2)))
+    Vc = [[rows("Vc0@%d" % k, 1) for k in range(N)]]
+    Vp = [[rows("Vp0@%d" % k, 2) for k in range(N + 1)]]
+    sigs = {("s", 0): fresh_obj("sigV", parametric=False, coeff=fresh_obj("c", shape=(1, 5)), sampled=[rows("Sv@%d" % k, 1) for k in range(N + 1)]),
+            ("s", 1): fresh_obj("sigP", parametric=True, coeff=fresh_obj("c", shape=(2, 5)), sampled=[rows("Sp@%d" % k, 2) for k in range(N + 1)])}
+    def par(n):
+        return fresh_obj("par", n=n)
+    stage = fresh_obj("stage", parameters={"": [par(2), par(1)], "control": [par(2)], "control+": [par(1)], "bspline": [par(2)]},
+                      variables={"": [par(1), par(2)], "control": [par(1)], "control+": [par(2)], "bspline": [par(1)]})
+
+    def cat(sim, recv, a, k, n):
+        items = a[0] if len(a) == 1 and isinstance(a[0], list) and not isinstance(a[0], RowMat) else a
+        if all(isinstance(x, RowMat) for x in items):
+            out = RowMat()
+            for x in items:
+                out.extend(x)
+            return out
+        return NotImplemented
+    hooks = {"vertcat": cat, "ca.vertcat": cat, "vcat": cat, "vvcat": cat, "veccat": cat, "ca.vcat": cat,
+             ".numel": lambda s_, r, a, k, n: r.attrs["n"] if isinstance(r, Obj) and "n" in r.attrs else NotImplemented,
+             ".nnz": lambda s_, r, a, k, n: r.attrs["n"] if isinstance(r, Obj) and "n" in r.attrs else NotImplemented}
+    out = {}
+    for k in (0, 1, N - 1):
+        me = fresh_obj("self", N=N, P=list(Pg), P_control=[list(x) for x in Pc], P_control_plus=[list(x) for x in Pp], V=V, V_control=[list(x) for x in Vc], V_control_plus=[list(x) for x in Vp], signals=dict(sigs))
+        sim = Sim(P, hooks=hooks)
+        sim.self_class = "SamplingMethod"
+        try:
+            got = sim.call(f, [me, stage, k], {})
+        except LayoutUnknown as e:
+            got = "<not simulated: %s>" % e
+        want = list(Pg[0]) + list(Pg[1]) + list(Pc[0][k]) + list(Pp[0][k]) + list(sigs[("s", 1)].attrs["sampled"][k]) + list(V) + list(Vc[0][k]) + list(Vp[0][k]) + list(sigs[("s", 0)].attrs["sampled"][k])
+        out[k] = (list(got) if isinstance(got, RowMat) else got, want)
+    cache["r"] = out
+    return out
+
+
 def check_pack_order(ctx):
     """R01.7 / R02.7 / R09.5 / R17.4: order of kinds supplied as `p` vs order expected by the ODE function."""
+    fsim = ctx.prog.own_method("SamplingMethod", "get_p_sys")
+    if "pack_p_sys" in ctx.prog.cls("SamplingMethod").methods:
+        simres = simulate_get_p_sys(ctx)
+        for k_, (got_, want_) in sorted(simres.items()):
+            if isinstance(got_, str):
+                raise AnalysisError("get_p_sys could not be simulated: %s" % got_)
+            ctx.check(got_ == want_, "get_p_sys(stage, %d) hands the system functions every symbol in its own slot, per-interval symbols with the values of interval %d" % (k_, k_),
+                      detail="a parameter / variable row of another symbol or another interval lands in this slot", expected=want_, found=got_, fi=fsim, sample={"k": k_})
+        try:
+            get_p_sys_sequence(ctx)
+        except AnalysisError:
+            # the statement form is not the one the syntactic extractor reads: the simulation above has decided
+            check_signal_order(ctx)
+            check_packer(ctx)
+            return fsim, fsim.params[2], [], []
     check_signal_order(ctx)
     f, k, seq, nodes = get_p_sys_sequence(ctx)
     want = stage_pack_sequence(ctx)
@@ -602,7 +671,18 @@ def check_pack_order(ctx):
 
 @rule("R01.6", min_instances=5, desc="per-interval selection in get_p_sys: every per-interval list is addressed with the same k; global P and V are not indexed")
 def r01_6(ctx):
-    f, k, seq, nodes = get_p_sys_sequence(ctx)
+    try:
+        f, k, seq, nodes = get_p_sys_sequence(ctx)
+    except AnalysisError:
+        if "pack_p_sys" not in ctx.prog.cls("SamplingMethod").methods:
+            raise
+        # another statement form: the simulated calls at k = 0, 1, N-1 decide the per-interval selection
+        fsim = ctx.prog.own_method("SamplingMethod", "get_p_sys")
+        for k_, (got_, want_) in sorted(simulate_get_p_sys(ctx).items()):
+            if isinstance(got_, str):
+                raise AnalysisError("get_p_sys could not be simulated: %s" % got_)
+            ctx.check(got_ == want_, "get_p_sys element selection at k=%d" % k_, detail="per-interval data of another interval", expected=want_, found=got_, fi=fsim)
+        return
     for s, e in zip(seq, nodes):
         if s in ("P:", "V:"):
             ctx.ok("get_p_sys global %s" % s, fi=f)
@@ -708,7 +788,18 @@ def check_pack_order_fine(ctx):
     appended = any(is_call_to(c, "vertcat") and any("signals_sampled" in ast.unparse(a) for a in c.args) and ast.unparse(c.args[-1]).startswith("signals_sampled") for c in walk_no_nested(g.node))
     packed_calls = [c for c in walk_no_nested(g.node) if is_call_to(c, "pack_p_sys", "stage._method") and len(c.args) == 3 and ast.unparse(c.args[0]) == "stage" and ast.unparse(c.args[2]).startswith("signals_sampled")]
     check_signal_order(ctx)
-    f, k, seq, nodes = get_p_sys_sequence(ctx)
+    try:
+        f, k, seq, nodes = get_p_sys_sequence(ctx)
+    except AnalysisError:
+        if not ("pack_p_sys" in P.cls("SamplingMethod").methods and packed_calls and not appended):
+            raise
+        # get_p_sys is written in another form: its simulation (with and without signals) and the packer decide the order
+        check_packer(ctx)
+        for k_, (got_, want_) in sorted(simulate_get_p_sys(ctx).items()):
+            if isinstance(got_, str):
+                raise AnalysisError("get_p_sys could not be simulated: %s" % got_)
+            ctx.check(got_ == want_, "_grid_intg_fine~Stage.p+Stage.v (get_p_sys simulated at k=%d)" % k_, detail="kind=simulated", expected=want_, found=got_, fi=g)
+        return
     want = stage_pack_sequence(ctx)
     base = [s for s in seq if s != "signals"]
     if packed_calls and not appended and check_packer(ctx):
